@@ -192,6 +192,7 @@ class ServerCfg(dict):
     banner_after_client bool  say nothing until the client has sent its identification string
     maxstartups_after   int   connections numbered above this get "Exceeded MaxStartups" and are closed
     refuse_after        int   connections numbered above this are refused
+    gone_after_banner   errno the server sends its lines and is gone: the client's writes fail with this errno, the lines can still be read
     negotiate           bool  disconnect a client whose KEXINIT shares no key exchange / host key / cipher / compression with the server's
     """
 
@@ -260,6 +261,13 @@ class SshServer:
             self.emit(sock, 'prebanner', b(line) + eol)
         if cfg.get('banner') is not None:
             self.emit(sock, 'banner', b(cfg['banner']) + eol)
+        if cfg.get('gone_after_banner') is not None:
+            # the server says what it has to say and goes away before the client has written anything: the client's writes fail (with the errno
+            # given), what the server sent is still there to be read, then the stream ends
+            sock.send_fails = cfg['gone_after_banner']
+            sock.push(EOF)
+            self.done = True
+            return
         if cfg.get('kexinit_with_banner'):
             self.send_kexinit(sock)
 
